@@ -16,16 +16,16 @@ claims = {
  "C16": ("proof", "ToBytes of every node returns empty iff it has variables (per type), Variables() results are fresh; the ordering/uniqueness part (getVariableNames, ListNode.Variables pre-order) is only partly under contract: see evidence not_proved.", "4.C16"),
  "C17": ("proof", "No schedule is explored. Proved instead: no package-level variable and no go statement exists (structural scan each run), and every function under contract writes only memory it allocated itself (the C11 frame obligations). Data-race freedom follows by the Go memory model (prose lemma, unchecked).", "4.C17"),
  "C18": ("proof", "Full-view postconditions of SetWaitBit and SetSessionIDAndSystemBytes (every field named) and the rep check after each producer are discharged for all messages and arguments.", "4.C18"),
+ "C05": ("proof", "Per-token 'no silent substitution' invariants proved for parseInt/parseUint/parseFloat/parseBinary/parseBoolean/parseASCII: each number token either parses (strconv contract) to exactly the value appended, in range for the item type, or an error is recorded; values are appended in token order; token shapes of lexNumber/lexQuotedString (text is exactly the scanned span, quotes balanced, no line break inside). That the lexer cuts tokens where the grammar says (regexps) is assumed, and strconv's denotation function is uninterpreted.", "4.C05"),
+ "C06": ("proof", "No panic escapes sml.Parse: nopanic obligations for every parser function outside parseDataItem's recover scope (including NewDataMessage's precondition at its call site) and for the lexer state functions (all index and slice expressions in bounds); 'failure implies an error was recorded' for every parser function, hence errors>0 => no messages and errors==0 => every message appended in order. Assumed: the token-shape contract of peek (lexer output shape incl. 'a message name contains no space rune'), nextToken's dispatch loop, channel sends never block; termination is not proved.", "4.C06"),
+ "C08": ("other", "The mechanisms are proved, the relation over pairs of texts is not: lexComment's postcondition (token keeps //, everything between the token and the line break is blank/tab/CR, never splits inside the kept text, returns the interrupted state), whitespace branches of both lexer states emit nothing and keep the state. Level 'other': the relational statement itself is not decided.", "4.C08"),
+ "C15": ("proof", "checkDataItemSizeError appends an error iff the size is outside [lower, upper] (all integer triples); parseDataItemSize maps the four declaration forms to (lower, upper) in terms of strconv's denotation; ASCII variable bounds are stored unchanged by NewASCIINodeVariable and parseASCII; lexDataItemSize is panic-free. ASCIINode.FillVariables' bound check is covered with C09 (pending).", "4.C15"),
+ "C19": ("other", "Mechanisms proved: parseMessage overwrites variableNames and ellipsisCount before anything else (structural obligation), appends exactly one message on success and leaves earlier messages untouched; both lexer states return to the header state with start==pos after emitting the terminator. The relation over concatenated texts is not decided (level 'other').", "4.C19"),
 }
 pending = {
  "C04": "relational print->parse round trip needs a correctness proof of the regexp/channel-driven SML front end against the printers; mechanism contracts pending",
- "C05": "SML literal conversion contracts not built yet",
- "C06": "SML parser totality contracts not built yet",
- "C08": "relation between pairs of texts; lexer mechanism contracts not built yet",
  "C09": "FillVariables contracts not built yet",
  "C10": "fillEllipsis (restarted loop index, mutable fillState) is outside deductive reach; no contract within reach decides it",
- "C15": "size-declaration contracts not built yet",
- "C19": "relation over concatenated texts; mechanism contracts not built yet",
 }
 checks=[]
 for pid,(cat,text,ref) in sorted(claims.items()):
